@@ -108,6 +108,14 @@ CHECKS["C13"] = dict(
     design="DESIGN.md §6 C13",
 )
 
+CHECKS["C06"] = dict(
+    category="exploration",
+    technique="exhaustive input enumeration (IX) of authenticate_client over a byte-counting fragmenting reader, plus the same families as real TLS connections to the real Server (LX)",
+    text="Right hash; all 256 single-bit flips; single-byte substitutions (thorough: all 32x255); k-byte prefix/suffix matches; hashes of 12 related passwords; every declared padding length 0..=65535 followed by a sentinel frame (exactly 34+L bytes consumed); every truncation for padding {0,1,30,300}; every 1-cut (thorough: every 2-cut) fragmentation and byte-at-a-time. LX: ~260 (thorough ~420) TLS connections carrying the preamble followed by a valid Settings+SYN+destination+data: for a bad preamble zero application bytes come back, the server closes the connection and the target is never contacted; for a good one the data reaches the target.",
+    note="Trusted: the deviation families stand for the other 2^256 preambles; timing side channels out of scope; loopback TLS.",
+    design="DESIGN.md §6 C06",
+)
+
 NOT_YET = {
 }
 
